@@ -50,6 +50,8 @@ type Network struct {
 	OnSend func(m *Msg)
 	// OnResponse lets monitors see every response produced by a handler.
 	OnResponse func(m *Msg)
+	// OnReply lets monitors see every response handed back to its sender.
+	OnReply func(m *Msg)
 }
 
 var errNet = errors.New("simnet: rpc failed")
@@ -134,6 +136,9 @@ func (t *SimTransport) SendInstallSnapshot(address string, r raft.InstallSnapsho
 	}
 	return m.ISr, nil
 }
+
+// Order is the number of requests sent so far (a logical send clock).
+func (n *Network) Order() int { return n.order }
 
 func (n *Network) find(id string) *Msg {
 	for _, m := range n.Msgs {
